@@ -657,7 +657,10 @@ func TestVerif_C12(t *testing.T) {
 		cases = append(cases, vfC12Case{T: types[0], SB: 2, Lens: rep(100, 8), After: [][]int{second}, Plain: true})
 		cases = append(cases, vfC12Case{T: types[0], SB: 2, Lens: second, First: []int{1}, After: [][]int{rep(100, 8)}})
 	}
-	r.Rule("variable-length strings: all element lists of length 1..3 over the length alphabet {0,1,7,8,9,4063,4064,4065,4072,4080,4081,65537} x superblock {2,3} x {contiguous, chunked}; content classes (ASCII, embedded NUL, multi-byte UTF-8); six numeric base types x 9 length lists x 2 layouts; roll-over families of 254..257 (thorough up to 10^4) equal elements; after reopen the datatype must be variable-length of the written base type, the library's element readers must return the elements or an error, and an independent decoder resolves every element reference into independently parsed heap collections (declared size, object sizes, alignment, unique indices, free-space record); every case is distinct; session families: 7 length lists for /v x {a later variable-length dataset with each of the 7 lists, /v written twice (first with each of the 7 lists), two later datasets plus a fixed-size neighbour, a fixed-size neighbour only} x {strings, int32 sequences} x 2 layouts")
+	// long-session family: seven datasets of 10^4 one-byte elements in one session — more than
+	// 2^16 heap objects through one writer, so that any per-session 16-bit quantity wraps
+	cases = append(cases, vfC12Case{T: types[0], SB: 2, Lens: rep(10000, 1), After: [][]int{rep(10000, 1), rep(10000, 1), rep(10000, 1), rep(10000, 1), rep(10000, 1), rep(10000, 1)}})
+	r.Rule("variable-length strings: all element lists of length 1..3 over the length alphabet {0,1,7,8,9,4063,4064,4065,4072,4080,4081,65537} x superblock {2,3} x {contiguous, chunked}; content classes (ASCII, embedded NUL, multi-byte UTF-8); six numeric base types x 9 length lists x 2 layouts; roll-over families of 254..257 (thorough up to 10^4) equal elements; after reopen the datatype must be variable-length of the written base type, the library's element readers must return the elements or an error, and an independent decoder resolves every element reference into independently parsed heap collections (declared size, object sizes, alignment, unique indices, free-space record); every case is distinct; session families: 7 length lists for /v x {a later variable-length dataset with each of the 7 lists, /v written twice (first with each of the 7 lists), two later datasets plus a fixed-size neighbour, a fixed-size neighbour only} x {strings, int32 sequences} x 2 layouts; a long session of seven datasets of 10^4 elements (more than 2^16 heap objects through one writer)")
 	vkit.ParallelFor(len(cases), func(i int) {
 		if r.Expired() {
 			r.Cap("time budget")
